@@ -176,7 +176,8 @@ overflow:
 FastRational divexact(FastRational const & n, FastRational const & d) {
     assert(d != 0);
     assert(n.isInteger() && d.isInteger());
-    if (n.wordPartValid() && d.wordPartValid()) {
+    // INT_MIN / -1 does not fit a word (and traps on x86): leave it to the arbitrary-precision path
+    if (n.wordPartValid() && d.wordPartValid() && not (n.num == INT_MIN && d.num == -1)) {
         word num = n.num;
         word den = d.num;
         word quo;
@@ -190,7 +191,6 @@ FastRational divexact(FastRational const & n, FastRational const & d) {
             return FastRational(0);
         }
     } else {
-        assert(n.mpqPartValid() || d.mpqPartValid());
         n.ensure_mpq_valid();
         d.ensure_mpq_valid();
         mpz_divexact(FastRational::mpz(), mpq_numref(n.mpq), mpq_numref(d.mpq));
